@@ -400,5 +400,6 @@ RULES = [
     ("C09.partloops", lambda c, r: __import__("sa.rules.lfht2", fromlist=["x"]).rule_partloops(c, r, "C09.partloops")),
     ("C09.explicit_resize", lambda c, r: __import__("sa.rules.lfht2", fromlist=["x"]).rule_explicit_resize(c, r, "C09.explicit_resize")),
     ("C09.newfields", lambda c, r: __import__("sa.rules.lfht2", fromlist=["x"]).rule_newfields(c, r, "C09.newfields")),
+    ("C09.workcb", lambda c, r: __import__("sa.rules.lfht2", fromlist=["x"]).rule_workcb(c, r, "C09.workcb")),
 ]
 FLOORS = {"C09.pow2": 4}
